@@ -564,12 +564,15 @@ func (mw *TinkEncryptionPartStoreMiddleware) GetPart(ctx context.Context, tx dat
 			return nil, err
 		}
 
-		// Create a decrypting reader for the remaining data
-		decryptReader, err := dekStreamingAEAD.NewDecryptingReader(rc, partId.Bytes())
+		// Create a decrypting reader for the remaining data. The ciphertext it
+		// consumes is counted: see truncationGuardReader.
+		ciphertext := &countingReader{r: rc}
+		tinkReader, err := dekStreamingAEAD.NewDecryptingReader(ciphertext, partId.Bytes())
 		if err != nil {
 			closeUnderlying()
 			return nil, notEOF(err)
 		}
+		decryptReader := &truncationGuardReader{r: tinkReader, ciphertext: ciphertext, segmentSize: int64(segmentSize)}
 
 		// Return a composite reader that wraps the decrypt reader with the underlying closer.
 		// tink's streaming reader serves its last segment again when it is read after
@@ -679,6 +682,42 @@ func (s *stickyErrReader) Read(p []byte) (int, error) {
 	n, err := s.r.Read(p)
 	if err != nil {
 		s.err = err
+	}
+	return n, err
+}
+
+// countingReader counts the bytes read through it.
+type countingReader struct {
+	r io.Reader
+	n int64
+}
+
+func (c *countingReader) Read(p []byte) (int, error) {
+	n, err := c.r.Read(p)
+	c.n += int64(n)
+	return n, err
+}
+
+// truncationGuardReader turns two clean ends of tink's sequential decrypting
+// reader into errors. That reader asks for one segment plus one look-ahead byte;
+// when nothing follows a full segment but that single byte, or nothing at all
+// follows the stream header, it reports io.EOF without having seen a segment
+// marked as the last one. No writer produces such a stream (every stream ends
+// with a last segment of at least a tag), so a ciphertext of header length, or
+// of one byte more than a whole number of segments, has been cut.
+type truncationGuardReader struct {
+	r           io.Reader
+	ciphertext  *countingReader
+	segmentSize int64
+}
+
+func (g *truncationGuardReader) Read(p []byte) (int, error) {
+	n, err := g.r.Read(p)
+	if err == io.EOF {
+		streamHeaderLen := int64(1 + tinkKeySize + tinkNoncePrefixSize)
+		if c := g.ciphertext.n; c == streamHeaderLen || c%g.segmentSize == 1 {
+			return n, fmt.Errorf("encrypted stream is truncated after %d ciphertext bytes: %w", c, io.ErrUnexpectedEOF)
+		}
 	}
 	return n, err
 }
